@@ -8,7 +8,7 @@
    scanner takes as a real numeral ([real_numeral]: the number round trip is C10/C11's subject). *)
 From Coq Require Import NArith ZArith List Bool.
 From Qv Require Import gen.Tables_json JsonModel JsonSpec JsonProofsBase JsonProofsStr JsonProofsNum JsonProofsParse
-  JsonProofsComplete JsonProofsDoc JsonProofsInt JsonProofsWrite JsonProofsRoundtrip JsonProofsRfc.
+  JsonProofsComplete JsonProofsDoc JsonProofsInt JsonProofsWrite JsonProofsRoundtrip JsonProofsRfc JsonDigitExt JsonDigitRfc JsonDigitC06 JsonDigitC08.
 Import ListNotations.
 Local Open Scope N_scope.
 
@@ -69,6 +69,46 @@ Proof. split; vm_compute; reflexivity. Qed.
 Theorem c08_rfc_valid : forall t, twf t -> reals_rfc t -> tcontainer t = true -> rfc_ok (stringify t) = true.
 Proof. exact stringify_rfc_valid. Qed.
 Print Assumptions c08_rfc_valid.
+
+(* ------------------------------------------------------------------ *)
+(* REALS DISCHARGED TO BOOLEANS ON THE TEXT (JsonDigitC08.v): the predicates real_numeral / real_rfc become, per real leaf,
+   [vleafb txt] = real_wholeb txt && rfc_numb txt ("the scanner takes the text whole as a real" and "the text is a number of
+   the RFC grammar", both computed on the text alone); [twf_shape] is twf without the clause on reals. *)
+Theorem c08_roundtrip_reals_decided : forall w t, twf_shape t -> vreals_okb t = true -> tcontainer t = true ->
+  parse w (stringify t) = JOk (normalize t) /\ rfc_ok (stringify t) = true /\ stringify (embed (normalize t)) = stringify t.
+Proof. exact stringify_roundtrip_decided. Qed.
+Print Assumptions c08_roundtrip_reals_decided.
+
+(* the RFC recogniser's verdict on a number does not depend on what follows either: real_rfc is decided on the text alone *)
+Theorem c08_real_rfc_decided : forall txt, rfc_numb txt = true -> real_rfc txt.
+Proof. exact real_rfc_decided. Qed.
+Print Assumptions c08_real_rfc_decided.
+
+(* leaves that are doubles: [dtext bits] is DigitModel.real_to_string (double, 17 digits, Default format); the per-leaf boolean
+   [bits_leaf_okb bits] = vleafb (dtext bits) && "DigitModel.string_to_number (dtext bits) is a real with these bits" -- the last
+   conjunct is the digit-level round trip, C11's subject (proved there for integers below 2^53, tested for the rest) *)
+Theorem c08_bits_leaf : forall bits, bits_leaf_okb bits = true ->
+  vleafb (dtext bits) = true /\ values (JReal (dtext bits)) = WReal (Some bits).
+Proof. exact bits_leaf. Qed.
+Print Assumptions c08_bits_leaf.
+
+(* the composed statement: stringify, parse, read the values off (reals as bits through DigitModel.string_to_number) *)
+Theorem c08_stringify_parse_values : forall w t, twf_shape t -> vreals_okb t = true -> tcontainer t = true ->
+  parse_values w (stringify t) = Some (values (normalize t)).
+Proof. exact stringify_parse_values. Qed.
+Print Assumptions c08_stringify_parse_values.
+
+(* non-vacuity: 1.5, 0.1, 1e22, the largest double, the smallest subnormal, -2.5e-5 all pass the three booleans, and a tree
+   holding their 17-digit texts (with an Undefined member and a pointer member) round-trips and is RFC-valid *)
+Theorem c08_doubles_example :
+  forallb bits_leaf_okb bits_ex = true /\
+  parse 0 (stringify bits_tree) = JOk (normalize bits_tree) /\ rfc_ok (stringify bits_tree) = true.
+Proof. split; [exact bits_ex_ok|exact bits_tree_roundtrip]. Qed.
+Print Assumptions c08_doubles_example.
+
+(* What remains a predicate / a gap: the SHAPE of what real_to_string emits (digits, optional point, optional e[+-]digits,
+   never empty, no inf / nan for finite inputs) is NOT proved from the formatter model: it is the per-leaf boolean
+   rfc_numb (dtext bits); the digit-level round trip is the per-leaf boolean in bits_leaf_okb (C11). *)
 
 (* NOT proved: reals -- that NumberToString(17) emits a real numeral of the RFC grammar which
    reads back to the same double (C10 / C11); the predicates real_numeral and real_rfc stand for it. *)
